@@ -13,6 +13,7 @@ Definition dec_mw (x : sx) : mw :=
      mw_kind_of := match as_Z (nth_sx 1 x) with
                    | 1%Z => MRewrite (as_str (nth_sx 2 x))
                    | 2%Z => MFail (Z.to_nat (as_Z (nth_sx 2 x)))
+                   | 3%Z => MHost (as_str (nth_sx 2 x))
                    | _ => MPass end |}.
 Definition dec_mws (x : sx) : list mw := map dec_mw (as_list x).
 Definition opt_nat (x : sx) : option nat := if (as_Z x <? 0)%Z then None else Some (Z.to_nat (as_Z x)).
